@@ -18,6 +18,8 @@ pub mod c15;
 pub mod c16;
 pub mod c17;
 pub mod c18;
+pub mod c19;
+pub mod c20;
 pub mod lzcommon;
 
 pub fn registry() -> Vec<Box<dyn DynProp>> {
@@ -40,6 +42,8 @@ pub fn registry() -> Vec<Box<dyn DynProp>> {
         Box::new(Erased::<c16::C16>::new()),
         Box::new(Erased::<c17::C17>::new()),
         Box::new(Erased::<c18::C18>::new()),
+        Box::new(Erased::<c19::C19>::new()),
+        Box::new(Erased::<c20::C20>::new()),
     ]
 }
 
